@@ -7,6 +7,7 @@ from __future__ import annotations
 from gen_handlers import ref_checksum
 from link import Cfg
 from session import pdu_fields, pdu_kind
+from world import kv
 from trace import Ev, Trace, ind_parts
 
 PROTOCOL_EXC = {
@@ -168,16 +169,21 @@ def o_C05(tr: Trace, h: str = "D") -> Fails:
     path: str | None = None           # resolved destination path of the current transaction
     ref: bytes | None = None          # expected content (None: no file / deleted)
     others: dict = dict(tr.init_files.get(h, {}))
-    pending_rejects = 0
+    # injected write rejections still queued in the filestore: known only as a range, because the
+    # trace does not say whether an ambiguous call attempted a write (a rejection is consumed by the
+    # next write attempt, whatever it writes)
+    pmin = pmax = 0
     for e in tr.for_h(h):
         before, after = e.prev, e.st
         if e.op == "reject":
-            pending_rejects += int(e.line.split()[2])
+            pmin += int(e.line.split()[2])
+            pmax += int(e.line.split()[2])
             continue
         if not after.ok:
             continue
         cands: list[bytes | None] = [ref]
         new_path = path
+        attempt = None          # (written, certain): a write of `written` was attempted (certainly / possibly)
         if e.op == "sm" and e.inp is not None and e.exc not in ADMISSION_EXC:
             k = pdu_kind(e.inp)
             q = pdu_fields(e.inp)
@@ -198,7 +204,6 @@ def o_C05(tr: Trace, h: str = "D") -> Fails:
                         d = (d.rstrip("/") + "/" + q["sname"].rsplit("/", 1)[-1])
                     new_path = d
                     cands = [b""]
-                    others.pop(d, None) if False else None
                 elif accepted:
                     if path is not None:
                         if ref is None:
@@ -214,18 +219,27 @@ def o_C05(tr: Trace, h: str = "D") -> Fails:
                 if e.exc == "ValueError":
                     cands = [ref]                      # lost-segment bookkeeping raised before the write
                 elif step in FD_STEPS and e.exc is None:
-                    if pending_rejects > 0:
-                        pending_rejects -= 1
+                    attempt = (written, True)
+                    if pmax == 0:
+                        cands = [written]
+                    elif pmin > 0:
                         cands = [ref]
                     else:
-                        cands = [written]
+                        cands = [ref, written]
                 elif step in FD_STEPS or step == "SENDING_EOF_ACK_PDU":
-                    if pending_rejects > 0 and after.fs == "same" and written != ref:
-                        pending_rejects -= 1
+                    attempt = (written, False)
                     cands = [ref, written]             # ambiguous: either is consistent with the property
         path = new_path
         # completion with disposition-on-cancellation may delete the incomplete file
         got = e.fs.get(path) if path is not None else None
+        if attempt is not None and ref is not None:
+            written, certain = attempt
+            if got == written and written != ref:
+                pmin = pmax = 0                        # the write went through: no rejection was queued
+            elif certain and got == ref and written != ref:
+                pmin, pmax = max(0, pmin - 1), max(0, pmax - 1)      # this attempt consumed a rejection
+            else:
+                pmin = max(0, pmin - 1)                # it may have consumed one
         if path is not None:
             ok = any(got == cnd for cnd in cands)
             if not ok and disp and got is None and path not in e.fs:
@@ -898,6 +912,21 @@ def o_C15(tr: Trace) -> Fails:
                     ph = {"tx": 1, "eofsent": 2, "finished": 3}.get(n, 0)
                     if n == "tx":
                         phase[t] = 1
+                        # originating transaction id: surfaced unless a proxy put response is present
+                        puts = [b for b in evs[:i + 1] if b.op == "put" and b.st.ok and b.exc is None]
+                        if puts and len(p) > 1:
+                            toks = kv(puts[-1].line.split()).get("msgs", "-")
+                            toks = [] if toks == "-" else toks.split(";")
+                            ids = []
+                            for tk in toks:
+                                if tk.startswith("o"):
+                                    sv, sw, qv, qw = tk[1:].split(".")
+                                    ids.append(f"{sv}/{sw}:{qv}/{qw}")
+                            if "r" in toks or not ids:
+                                if p[1] != "-":
+                                    f.add("C15:originating-id-surfaced-unexpectedly", {"ind": x, "put": puts[-1].line}, e.idx)
+                            elif p[1] not in ids:
+                                f.add("C15:originating-id-missing-or-wrong", {"ind": x, "put": puts[-1].line}, e.idx)
                     elif phase.get(t, 0) < 1:
                         f.add(f"C15:order:{n}-before-transaction-indication", {"ind": x}, e.idx)
                     elif phase.get(t, 0) > ph:
